@@ -135,6 +135,21 @@ Proof. cbn. unfold dot3; cbn. repeat split; lra. Qed.
 Example ex_twisted_slice_enclosed : forall o, @build3 ROps ex_twisted_slice = Some o -> enc3 o.
 Proof. intros o. apply all_compositions3, ex_twisted_slice_wf. Qed.
 
+(* in contrast to the refuted rotated extrusion: a rotated rounded box or cylinder is in Lb2, so its offset
+   and shell are covered *)
+Definition ex_rotated_box : RS3 :=
+  Shell3 (Offset3 (Union3 MinDef [Transform3 (Box3D (mkV3 2 3 4) (1 / 4)) rotx345;
+                                  Transform3 (Cylinder 5 1 (1 / 2)) rotx345]) (1 / 2)) (1 / 10).
+Example ex_rotated_box_wf : wf3 ex_rotated_box.
+Proof.
+  pose proof rotx345_rigid as R. pose proof rotx345_det as D. pose proof (proj1 R) as A.
+  assert (C : (True /\ rigid44 rotx345) /\ (True /\ rigid44 rotx345) /\ True) by (split; [split; [exact I | exact R] | split; [split; [exact I | exact R] | exact I]]).
+  cbn -[m44_determinant rotx345 rigid44].
+  split; [split; [repeat split; assumption | split; [lra | right; exact C]] | left; split; [right; exact C | lra]].
+Qed.
+Example ex_rotated_box_enclosed : forall o, @build3 ROps ex_rotated_box = Some o -> enc3 o.
+Proof. intros o. apply all_compositions3, ex_rotated_box_wf. Qed.
+
 (* the hypothesis build = Some is satisfiable: the plate really builds *)
 Example ex_plate_builds : exists o, @build3 ROps ex_plate = Some o.
 Proof.
